@@ -223,7 +223,7 @@ class Check:
         s.replayers = {}
 
     # ---- obligations decided in-process ------------------------------------------------------
-    def prove(s, name, assume, goal, vars=None, replay=None, sample=None, witness=True, timeout=None, funcs=()):
+    def prove(s, name, assume, goal, vars=None, replay=None, sample=None, witness=True, timeout=None, funcs=(), replay_known=True):
         """Decide: for all values, (AND assume) => goal.
         vars: {name: z3 term} made available to known-finding regions and written into replay files.
         replay: callable(inputs: {name:int}) -> (reproduced: bool, detail: dict) running the native twin."""
@@ -241,7 +241,8 @@ class Check:
                 return False
         regions = []
         for e in s.known:
-            if e.get('status') != 'known' or e.get('obligation') != name:
+            ob = e.get('obligation', '')
+            if e.get('status') != 'known' or not (ob == name or (ob.endswith('*') and name.startswith(ob[:-1]))):
                 continue
             try:
                 loc = dict(vars)
@@ -282,7 +283,7 @@ class Check:
             if r2 == 'sat':
                 inputs = {k: mval(m2, v) for k, v in vars.items()}
                 conf = None
-                if replay is not None:
+                if replay is not None and replay_known:
                     try:
                         conf, detail = replay(inputs)
                     except Exception as x:
@@ -294,11 +295,12 @@ class Check:
                 line = 'KNOWN-FINDING: property=%s %s [%s]' % (s.pid, e['text'], e['id'])
                 if line not in s.known_printed:
                     s.known_printed.append(line)
-                    print(line, flush=True)
+                    if multiprocessing.current_process().name == 'MainProcess':
+                        print(line, flush=True)
                 s.results.append(Result(name + '#' + e['id'], 'known', inputs=inputs, replayed=conf))
             elif r2 == 'unknown':
                 s.inconclusive.append(name + ': known region query unknown')
-            else:
+            elif not e.get('obligation', '').endswith('*'):
                 s.notes.append('known finding %s no longer reproduces at obligation %s' % (e['id'], name))
         if res == 'unsat':
             s.results.append(Result(name, 'unsat', t=round(time.time() - t0, 2), excluded_known=[e['id'] for e, _ in regions], **rec))
@@ -359,6 +361,7 @@ class Check:
         for l in other['known_printed']:
             if l not in s.known_printed:
                 s.known_printed.append(l)
+                print(l, flush=True)
         s.validated += other['validated']
         s.ninstr += other['ninstr']
         s.nstates += other['nstates']
